@@ -8,14 +8,14 @@ Definition optnat_eqb (a b : option nat) : bool :=
 Definition err_eqb (a b : err) : bool :=
   match a, b with
   | ENoImage, ENoImage | ENoFile, ENoFile | EShortRead, EShortRead | ENoConversion, ENoConversion
-  | ENotSerializable, ENotSerializable | ENoSpace, ENoSpace => true
+  | ENotSerializable, ENotSerializable | ENoSpace, ENoSpace | EWriter, EWriter => true
   | _, _ => false
   end.
 Definition out_eqb (a b : out) : bool :=
   match a, b with
   | ODone, ODone | OCrash, OCrash | ODead, ODead => true
   | OVal v, OVal v' => optnat_eqb v v'
-  | OSaved p v d x, OSaved p' v' d' x' => Nat.eqb p p' && optnat_eqb v v' && dtype_eqb d d' && Nat.eqb x x'
+  | OSaved p v d x k, OSaved p' v' d' x' k' => Nat.eqb p p' && optnat_eqb v v' && dtype_eqb d d' && Nat.eqb x x' && Nat.eqb k k'
   | OBytes v d x, OBytes v' d' x' => optnat_eqb v v' && dtype_eqb d d' && Nat.eqb x x'
   | ORefused e, ORefused e' => err_eqb e e'
   | _, _ => false
